@@ -30,7 +30,7 @@ RULE = (
     "Destinations object, state = canonical (any_added, destination names, buffered message contents "
     "modulo serial renaming, global fields), transition = one public API call checked against the list "
     "model; part 2: threads L (1-2 log_message), R (first add_destinations of 1-2 destinations), "
-    "optional G (add_global_fields), every schedule with <= p preemptions at line granularity in "
+    "optional G (add_global_fields), and with d1 already registered R performing a later add / a remove of d2, every schedule with <= p preemptions at line granularity in "
     "Destinations.send/add/addGlobalFields and BufferingDestination.__call__; non-trivial = every "
     "BFS state / every concurrent harness"
 )
@@ -281,8 +281,80 @@ THR_HARNESSES = [
     {"logs": 2, "pre": 1, "add": ["d1", "d2"], "glob": False},
     {"logs": 1, "pre": 1, "add": ["d1"], "glob": True},
     {"logs": 2, "pre": 2, "add": ["d1"], "glob": False},
+    # destinations already registered: a later add / a remove racing with the logging thread
+    {"kind": "later-add", "logs": 2, "pre": 1},
+    {"kind": "remove", "logs": 2, "pre": 1},
 ]
 NSHARDS = 4
+
+
+def run_thr_later(hi, bound, shard):
+    """d1 is registered before the threads start.  Thread L logs; thread R adds d2 (later-add) or
+    removes d2 (remove).  d1 must receive every message exactly once, in order; d2 a contiguous
+    suffix (later-add) or prefix (remove) of L's messages, never a duplicate or a foreign message."""
+    h = THR_HARNESSES[hi]
+    funcs = {"send", "add", "remove", "__call__", "addGlobalFields"}
+
+    def setup(s):
+        real = Real()
+        if h["kind"] == "later-add":
+            real.add("d1")
+        else:
+            real.add("d1", "d2")
+        real.log(h["pre"])
+
+        def L():
+            n = [h["pre"]]
+            for _ in range(h["logs"]):
+                n[0] += 1
+                eliot.log_message("c12", serial=n[0])
+
+        def R():
+            if h["kind"] == "later-add":
+                real.add("d2")
+            else:
+                real.remove("d2")
+
+        def observe(s):
+            return {"d1": [g[0] for g in real.d["d1"].got], "d2": [g[0] for g in real.d["d2"].got]}
+
+        return [("L", L), ("R", R)], observe
+
+    total = h["pre"] + h["logs"]
+    want = list(range(1, total + 1))
+    viol = []
+    execs = states = transitions = 0
+    by_pre = {}
+    seen = set()
+    for x in thr.explore(setup, bound, trace_files=[OUT_FILE], trace_funcs=funcs, shard=shard):
+        execs += 1
+        transitions += len(x.choices)
+        states += 1 + len(x.choices)
+        by_pre[x.preemptions] = by_pre.get(x.preemptions, 0) + 1
+        seen.add(repr(x.obs))
+        sched = [c[3] for c in x.choices]
+        info = {"schedule": sched, "preemptions": x.preemptions, "harness": h, "obs": x.obs}
+        if x.sched.deadlock:
+            viol.append((h["kind"] + "-race:deadlock", info))
+        for t in x.sched.threads:
+            if t.exc is not None:
+                viol.append((h["kind"] + "-race:thread-raised", dict(info, exc=repr(t.exc))))
+        d1, d2 = x.obs["d1"], x.obs["d2"]
+        if d1 != want:
+            kind = "duplicated" if len(set(d1)) != len(d1) else ("reordered" if sorted(d1) == want else "lost")
+            viol.append(("%s-race:registered-destination:%s" % (h["kind"], kind), info))
+        pre = list(range(1, h["pre"] + 1))
+        if h["kind"] == "later-add":
+            ok = d2 == want[len(want) - len(d2):] and not (set(d2) & set(pre)) if d2 else True
+        else:
+            ok = d2 == want[: len(d2)] and d2[: len(pre)] == pre
+        if not ok:
+            viol.append(("%s-race:changing-destination:not-a-contiguous-%s" % (h["kind"], "suffix" if h["kind"] == "later-add" else "prefix"), info))
+    best = {}
+    for sig, d in viol:
+        if sig not in best or d.get("preemptions", 9) < best[sig].get("preemptions", 9):
+            best[sig] = d
+    return execs, states, transitions, by_pre, seen, sorted(best.items())
 
 
 def run_thr(hi, bound, shard):
@@ -426,7 +498,10 @@ def run_case(case):
             extra={"bfs_states": states, "bfs_transitions": transitions, "bfs_max_depth": maxd},
         )
     _, hi, bound, k = case
-    execs, states, transitions, by_pre, seen, viol = run_thr(hi, bound, (k, NSHARDS))
+    if THR_HARNESSES[hi].get("kind") in ("later-add", "remove"):
+        execs, states, transitions, by_pre, seen, viol = run_thr_later(hi, bound, (k, NSHARDS))
+    else:
+        execs, states, transitions, by_pre, seen, viol = run_thr(hi, bound, (k, NSHARDS))
     world.fresh()
     return Result(
         outcome=[execs, sorted(by_pre.items()), sorted(seen)],
